@@ -2,7 +2,7 @@
 META = {
     "level": "exploration",
     "technique": "runtime monitoring of real uploads (Data / FileHandle / FileName / list-chunked and short-read uploadables) on several in-process grids; differential oracle against an independent hashlib model of the convergence key and storage index plus pairwise equality/inequality of caps under one-at-a-time parameter perturbation",
-    "text": "Each case fixes (plaintext, convergence secret, k, N, max segment size) and uploads it through the real client several times: from different uploadable kinds and read chunkings, in shuffled order, on two grids that differ in server count, delivery profile and schedule; then again with exactly one of secret / k / N / max segment size changed (max segment size both so that the effective segment size min(max,size) rounded up to a multiple of k changes and so that it does not), and twice with convergence=None. Oracles: caps of equal inputs are byte-identical; caps of equal (data,secret,k,N,effective segment size) are identical; any change of secret/k/N/effective segment size changes the storage index; the AES key in the cap equals SHA256d(netstring(tag+netstring(secret)+netstring('k,n,segsize'))+data)[:16] and the storage index equals the tagged SHA256d of the key, both recomputed with hashlib from re-typed tags; share files exist on disk under the model's storage index; sizes <=55 give URI:LIT: + base32(data) (independent base32) whatever the parameters, readable and uploadable with zero servers / all servers disconnected; size >=56 gives CHK; convergence=None twice gives different keys and storage indexes. Sizes are biased to 0,1,54..57, multiples of k and of the segment size +-1 and (at least once per run) to the 64 KiB block size of the key hasher +-1.",
+    "text": "Each case fixes (plaintext, convergence secret, k, N, max segment size) and uploads it through the real client several times: from different uploadable kinds and read chunkings, in shuffled order, on two grids that differ in server count, delivery profile and schedule; then again with exactly one of secret / k / N / max segment size changed (max segment size both so that the effective segment size min(max,size) rounded up to a multiple of k changes and so that it does not), and twice with convergence=None. Oracles: caps of equal inputs are byte-identical; caps of equal (data,secret,k,N,effective segment size) are identical; any change of secret/k/N/effective segment size changes the storage index; the AES key in the cap equals SHA256d(netstring(tag+netstring(secret)+netstring('k,n,segsize'))+data)[:16] and the storage index equals the tagged SHA256d of the key, both recomputed with hashlib from re-typed tags; share files exist on disk under the model's storage index; sizes <=55 give URI:LIT: + base32(data) (independent base32) whatever the parameters, readable and uploadable with zero servers / all servers disconnected; size >=56 gives CHK; convergence=None twice gives different keys and storage indexes. Every fifth case exercises the other entry point that takes a convergence secret: one set of deep-immutable children is made into an immutable directory through Client.create_immutable_dirnode and NodeMaker.create_immutable_directory on two clients with different private secrets, with convergence omitted (node default), b'', b'x' and the node's own secret spelled out; the packed bytes are read back and the directory cap must carry the model key for (packed, effective secret, k, N, segsize), equal the cap of a direct Data(packed, secret) upload, be identical for equal effective secrets (also across nodes for b'') and differ in storage index for different ones; literal-sized directories must not depend on secret or node. Sizes are biased to 0,1,54..57, multiples of k and of the segment size +-1 and (at least once per run) to the 64 KiB block size of the key hasher +-1.",
     "note": "Trusts hashlib/base64, the in-process Wire and the virtual reactor. Random keys (convergence=None) come from os.urandom: inequality is judged, the values are not reproducible. The statement's 'segment size' is read as the effective segment size recorded in the share (what the key derivation hashes); a change of the configured maximum that leaves it unchanged must leave the cap unchanged.",
 }
 LEVEL = "exploration"
@@ -616,7 +616,7 @@ def _f(res):
         return repr(res)[:300]
 
 
-# MUST_CATCH (selftest/breaks_c05.py; all 16 caught at quick tier, seed 0):
+# MUST_CATCH (selftest/breaks_c05.py; all 20 caught at quick tier, seed 0):
 #   c05-hash-max-segsize-instead-of-effective -> convergence-key-differs-from-model/max-segment-size-hashed-instead-of-effective, same-encoding-different-cap
 #   c05-params-tag-omits-n / -k / -segsize    -> convergence-key-differs-from-model, storage-index-unchanged-after-changing-<n|k|segsize>
 #   c05-secret-not-hashed                     -> convergence-key-differs-from-model/secret-not-hashed, storage-index-unchanged-after-changing-secret
@@ -626,3 +626,9 @@ def _f(res):
 #   c05-lit-threshold-strict -> small-file-not-literal; c05-lit-threshold-56 -> large-file-literal
 #   c05-lit-keeps-first-chunk-only -> literal-cap-does-not-embed-data
 #   c05-random-key-fixed -> random-key-repeated; c05-none-falls-back-to-empty-secret -> random-key-equals-convergent-key
+#   directory entry point (4/4): c05-dir-empty-secret-treated-as-not-given (= seeded/C05-8), c05-dir-ignores-given-secret,
+#   c05-dir-default-secret-is-empty, c05-dir-default-secret-is-random-key
+#       -> immutable-directory-key-differs-from-model[/explicit-empty-secret-replaced-by-node-secret],
+#          immutable-directory-cap-differs-from-direct-upload, immutable-directory-same-inputs-different-cap,
+#          immutable-directory-storage-index-unchanged-after-changing-secret
+#   seeded/C05-1..8 all caught (tools/selftest.py --seeded --prop C05)
